@@ -77,6 +77,8 @@ func checkC05(c *Ctx) {
 	r.Rule("R05d", "each annotation constant uses the documented library codec in both directions", 18)
 	r.Rule("R05e", "discriminator value: explicit oneof_value, else the proto field name", 2)
 	r.Rule("R05g", "JSON-mapping annotations are consumed by all generators or none", 8)
+	r.Rule("R05n", "reads of the run-wide unwrap table fall back to the descriptor itself (shared with C04/R04j, C15/R15f): an annotated value message declared in a file that is not generated in this run still gets the documented form", 2)
+	c.checkGlobalTableReads("R05n")
 
 	// ---------------- R05a
 	for _, f := range c05Features {
